@@ -1,6 +1,6 @@
 /-
 C27 — the part of the codec the translator does not translate (maps, sort, type switches on
-attribute values, methods of Row and roaring.Bitmap), modelled by hand on the generated structures,
+attribute values, methods of Row), modelled by hand on the generated structures,
 with their round-trip and no-panic lemmas, and the canonical-form hooks.
 
 The translator checks the fingerprint lines below against the current Go source of each function:
@@ -8,12 +8,10 @@ after an edit of one of them it fails until the model here has been re-inspected
 
 -- fingerprint decodeAttr 65e52e4a625bcdcff404917ba29ebf66803abe88
 -- fingerprint decodeAttrs 0df2d14d7329ae6002b6ce25de6580d118f318d1
--- fingerprint decodeFieldStatus 67b488b4dd3ed816bfeba51304b7676a923ba73d
 -- fingerprint decodeImportRoaringRequest 75af5fd9a5bbe58bd7265861050324a90b5185c0
 -- fingerprint decodeRow 4e59a7948692805ae4a7b38a5321005d2f098116
 -- fingerprint encodeAttr 6fef8d1a2e75fb972458e1da6c94e66f71ce5f8f
 -- fingerprint encodeAttrs ac914f397f823e04b41c0a59d56aacd4322e8b62
--- fingerprint encodeFieldStatus 4e310fc52d0c6db9226ffbd6ccec6f8040c1533c
 -- fingerprint encodeImportRoaringRequest db40137ef51a5deb097dc8ce6f9c91299f9c60e7
 -- fingerprint encodeRow 393980bab04146c4acbd7df46fa711085c0afa52
 -/
@@ -127,16 +125,6 @@ theorem foldl_map_views (m : ViewsMap) (acc : ViewsMap) :
   | nil => rfl
   | cons kv rest ih => simp only [List.map_cons, List.foldl_cons]; exact ih _
 
-/-! ## FieldStatus (roaring bitmap of available shards) -/
-
-def encodeFieldStatus (m : P.FieldStatus) : I.FieldStatus :=
-  { Name := m.Name, AvailableShards := m.AvailableShards }
-
-def decodeFieldStatus (pb : Option I.FieldStatus) (m : P.FieldStatus) : Outcome P.FieldStatus :=
-  match pb with
-  | none => throw (.panic "decodeFieldStatus: nil pointer dereference of pb")
-  | some pb => pure { m with Name := pb.Name, AvailableShards := setOfList pb.AvailableShards }
-
 /-! ## Canonical-form hooks
 
 `code = true`: what the codec does (the theorems are stated with it);
@@ -189,14 +177,6 @@ def hook_Result (code : Bool) : P.Result → P.Result
 
 theorem total_decodeImportRoaringRequest (pb : I.ImportRoaringRequest) (m : P.ImportRoaringRequest) :
     NoPanic (decodeImportRoaringRequest (some pb) m) := rfl
-
-@[simp] theorem rt_decodeFieldStatus (v m : P.FieldStatus) :
-    decodeFieldStatus (some (encodeFieldStatus v)) m = .ok (hook_FieldStatus true v) := by
-  simp only [decodeFieldStatus, encodeFieldStatus, hook_FieldStatus]
-  rfl
-
-theorem total_decodeFieldStatus (pb : I.FieldStatus) (m : P.FieldStatus) :
-    NoPanic (decodeFieldStatus (some pb) m) := rfl
 
 /-! ## Trees of the hand types -/
 
